@@ -696,6 +696,8 @@ public:
     int finish()
     {
         std::string vd = verif_dir();
+        // evidence / replay files go to $VERIF_OUT when set (mutation runs must not overwrite the real evidence)
+        std::string od = getenv("VERIF_OUT") && *getenv("VERIF_OUT") ? std::string(getenv("VERIF_OUT")) : vd;
         // known findings
         std::set<std::string> known;
         std::map<std::string, std::string> known_text;
@@ -722,7 +724,7 @@ public:
         int status = 0;
         int nviol = 0, nknown = 0;
         std::vector<Json> vio_json;
-        mkdir((vd + "/replay").c_str(), 0755);
+        mkdir((od + "/replay").c_str(), 0755);
         int idx = 0;
         for (auto& kv : fails)
         {
@@ -752,7 +754,7 @@ public:
                 continue;
             }
             ++nviol;
-            std::string path = vd + "/replay/" + opt.prop + "-" + opt.tier + "-" + std::to_string(idx++) + ".json";
+            std::string path = od + "/replay/" + opt.prop + "-" + opt.tier + "-" + std::to_string(idx++) + ".json";
             Json j = Json::obj({{"engine", Json::str(opt.engine)},
                                 {"property", Json::str(opt.prop)},
                                 {"tier", Json::str(opt.tier)},
@@ -806,8 +808,8 @@ public:
                              {"assumptions", Json::strarr(assumptions)},
                              {"wall_s", Json::real(now_s() - t0)},
                              {"violations", Json::num((uint64_t) nviol)}});
-        mkdir((vd + "/evidence").c_str(), 0755);
-        std::string ep = vd + "/evidence/" + opt.prop + ".json";
+        mkdir((od + "/evidence").c_str(), 0755);
+        std::string ep = od + "/evidence/" + opt.prop + ".json";
         {
             std::ofstream o(ep + ".tmp");
             o << ev.text << "\n";
